@@ -29,6 +29,8 @@ def cmp_enc(case, go, m, s):
 
 
 def hist_enc(case, go):
+    if not case.startswith("ENC "):
+        return ["op:" + " ".join(case.split(" ")[:2 if case.startswith("FLD ") else 1])]
     a = case.split(" ")[1:]
     g = _parts(go, 4) or ["-", "?", "-", "?"]
     ops = ";".join(x for x in a if x != "-").split(";") if any(x != "-" for x in a) else []
@@ -133,12 +135,18 @@ def register(PROPS):
         # "no string ... can leak into a neighbouring message" covers messages that share a backing array
         if case.startswith("FAM "):
             return go == m, go == s
+        # the ID / type of an encoded message may come from any construction route (Scan, UnmarshalText, JSON, header):
+        # a route that lets a line break through — or keeps a reference to a buffer its caller reuses — puts foreign
+        # lines on the wire; the routes are run here as well (their own property is C14)
+        if not case.startswith("ENC "):
+            return cmp_c14(case, go, m, s)
         return cmp_enc(case, go, m, s)
 
     PROPS["C02"] = {
         "generated_layer": True,
         "gens": [{"id": "C02", "quick": 30000, "thorough": 1200000, "thorough_seeds": 12},
-                 {"id": "C19", "quick": 6000, "thorough": 200000, "thorough_seeds": 8}],
+                 {"id": "C19", "quick": 6000, "thorough": 200000, "thorough_seeds": 8},
+                 {"id": "C14", "quick": 6000, "thorough": 200000, "thorough_seeds": 8}],
         "compare": cmp_c02,
         "shrink_candidates": shrink_msgs,
         "nontrivial": lambda c, g: not g.startswith("- |"),
@@ -186,13 +194,33 @@ def register(PROPS):
         "assumptions": ["encoding/json's decoding of a document into a string is taken from encoding/json itself (parameter of the model)",
                         "the inventory of construction routes is the one read off message_fields.go, message.go and session.go"],
     }
+    def cmp_c19(case, go, m, s):
+        # Joe scenarios: the caller's message after Publish (whatever the replayer answered) must be what it was before
+        if case.startswith("JOE "):
+            corr = m == "accept"
+            if s == "ok":
+                return corr, True
+            if not s.startswith("viol "):
+                return corr, False
+            return corr, not [x for x in s[5:].split(" ;; ") if x.startswith("C19:")]
+        return go == m, go == s
+
+    def hist_c19_all(case, go):
+        return ["op:JOE"] if case.startswith("JOE ") else hist_c19(case, go)
+
     PROPS["C19"] = {
-        "gens": [{"id": "C19", "quick": 15000, "thorough": 500000, "thorough_seeds": 12}],
+        "gens": [{"id": "C19", "quick": 15000, "thorough": 500000, "thorough_seeds": 12},
+                 {"id": "C17", "quick": 1200, "thorough": 30000, "thorough_seeds": 6}],
+        "compare": cmp_c19,
+        "on_crash": "correspondence",
+        "replay_repeats": 50,
         "nontrivial": lambda c, g: "," in g,
         "rule": "scripts of 2-15 ops (AppendData/AppendComment with 1-3 multi-line strings, NewID/NewType/Retry assignment, "
                 "Clone, Put of the same message 1-3 times through Finite/Valid replayers with automatic and required IDs) "
-                "on a growing family; String() of every member after every op; non-trivial = at least two members",
-        "hist": hist_c19,
+                "on a growing family; String() of every member after every op; non-trivial = at least two members; plus Joe "
+                "scenarios (faulty, Finite and Valid replayers, ID-mode-violating publishes): every published message is "
+                "compared with its state before Publish",
+        "hist": hist_c19_all,
         "assumptions": ["append's growth policy is arbitrary (any capacity >= needed): the theorems quantify over it, "
                         "the model run uses one fixed policy",
                         "uint64 wrap-around of the automatic ID counter is out of scope"],
